@@ -356,3 +356,11 @@ def f1(ctx):
     obs.append(ctx.ob(rv == {"DECODED"}, pf.qualname, pf.where, "path_from_environ re-decodes", "returns %s" % sorted(rv),
                       "path_from_environ returns a value in state %s (expected the iso-8859-1 -> UTF-8 re-decoding)" % sorted(rv)))
     return obs
+
+
+@rule("C16", "L1", floor=7, kind="N",
+      desc="listings are complete: members() and get_member() consult the same sources, unconditionally (same "
+           "obligations as C01/H1)")
+def l1(ctx):
+    from .c01 import h1
+    return h1(ctx)
